@@ -437,7 +437,8 @@ HASH = "# c\n"
 # further comment spellings (used one at a time, never in mixtures)
 EXOTIC_BLOCK = {"/* \"q' */": "comment-quotes", "/* l1\nl2 */": "comment-newline", "/*/ c */": "comment-slash-first",
                 "/* c **/": "comment-star-last", "/* # c */": "comment-hash-inside", "/* <u> (1, {2}) */": "comment-brackets",
-                "/* c1 *//* c2 */": "comment-twice-adjacent"}
+                "/* c1 *//* c2 */": "comment-twice-adjacent", "/* c /*/": "comment-slash-last", "/* a /* b */": "comment-open-inside",
+                "/*/*/": "comment-only-slash", "/* c / * d */": "comment-spaced-delims"}
 EXOTIC_HASH = {"#\n": "hash-empty", "#c\n": "hash-nospace", "# it's \"q\n": "hash-quotes", "# /* c\n": "hash-block-open",
                "# c */ d\n": "hash-block-close", "# = ; END\n": "hash-reserved", "# c\r\n": "hash-crlf", "## c #\n": "hash-hashes",
                "# a/b\n": "hash-slash"}
